@@ -169,6 +169,21 @@ func c10Run(t *testing.T, c *choice.Stream, r *Result, opt RunOpt, forced *c10Fo
 		if conn.Window > 0 && forced == nil && c.Bool("stuck", 1, 2) {
 			stuckAfter = c.Draw("stuck.after", 1200)
 		}
+		refused := false
+		if sc.kind == "insert" && !streaming && forced == nil && stuckAfter < 0 && c.Bool("insert.refused", 1, 4) {
+			refused = true
+			// the server refuses the INSERT with an exception right after the schema
+			// exchange, while the caller's callback may still be running and may still
+			// cancel: the context's error has to show in what Do returns all the same
+			for i := sc.afterHandshake; i < len(srv.Script); i++ {
+				if srv.Script[i].Label == "data" && len(srv.Script[i].Send) > 0 {
+					ns := append([]simnet.Step{}, srv.Script[:i+1]...)
+					srv.Script = append(ns, simnet.Step{Label: "exception", Send: (&SPacket{Kind: "exception", Exc: DrawExceptionChain(c)}).Encode(cf)})
+					r.Fire("insert_refused_by_exception")
+					break
+				}
+			}
+		}
 		if stuckAfter >= 0 && sc.kind == "insert" && !streaming && c.Bool("stuck.early-eos", 1, 3) {
 			// ... and before it stopped reading, the server declared the query finished:
 			// the receive loop is gone, the sender is still at it
@@ -234,7 +249,7 @@ func c10Run(t *testing.T, c *choice.Stream, r *Result, opt RunOpt, forced *c10Fo
 		// The server may fall silent in the middle of a packet: the beginning of
 		// its next packet arrives, the rest never does, and the cancellation comes
 		// when the receiver is already inside that packet.
-		partial0 := forced == nil && !streaming && c.Bool("silence.partial", 1, 2)
+		partial0 := forced == nil && !streaming && c.Bool("silence.partial", 1, 2) && !refused
 		partial := silence && partial0
 		partial0 = partial0 && useDeadline && c.Bool("silence.partial.deadline", 2, 3)
 		partialFrac := c.Draw("silence.partial.at", 1000)
@@ -493,8 +508,18 @@ func c10Run(t *testing.T, c *choice.Stream, r *Result, opt RunOpt, forced *c10Fo
 				r.Probe("far_deadline_expired_first")
 				return
 			}
+			if !isDone && refused && ch.IsException(derr) {
+				r.Probe("refused_before_cancel")
+				return
+			}
 			if !isDone {
 				r.Harness("Do failed without cancellation: %v (server parse error %v)", derr, srv.Parser.Err)
+				return
+			}
+			if refused && ch.IsException(derr) && !errors.Is(derr, ctx.Err()) && gateName != "callback" {
+				// the cancellation may have come after Do had settled on what it returns;
+				// only a cancellation from inside a callback provably precedes that
+				r.Probe("refused_and_cancelled_late")
 				return
 			}
 			r.NonTriv = true
